@@ -84,3 +84,10 @@ package store
 //@   modifies gotWantHasO, gotFound, gotGiven
 //@   ensures [C06] sub != nil ==> gotWantHasO == ((sub.ModeWant & types.ModeOwner) != 0)
 //@   ensures [C07] gotFound == (sub != nil) && (sub != nil ==> gotGiven == sub.ModeGiven)
+
+// C13: a credential validator registered under a configured name exists (assumed of the store: main() refuses to start
+// when a configured validator is missing, main.go:495).
+//@ spec func validatorConfigured(name string) bool
+//@ func (s PersistentStorageInterface) GetValidator(name string) (v validate.Validator)
+//@   modifies nothing
+//@   ensures [C13,assumed] validatorConfigured(name) ==> v != nil
